@@ -443,3 +443,48 @@ func offsetFrom(v ssa.Value, isBase func(ssa.Value) bool) (int64, bool) {
 	}
 	return 0, false
 }
+
+// ------------------------------------------------------------------ C08.R10
+// F62: "the proposer of (height, round)" must be a function of the set and the number of rotations, not of how
+// a node got there: consensus advances by `round - cs.Round` in one call when it skips rounds and by 1 per
+// round when it walks them, and the chain advances by 1 per height. Advancing by n has to be advancing by 1
+// n times. A rotation step is rescale → centre → rotate; the multi-step function performs all three once per
+// step: the rescaling and the centring sit in the same counted loop (`times` iterations) as the rotation and
+// precede it there.
+func init() {
+	register("C08", "R10", "K9+K2", "advancing the priorities by n rescales, centres and rotates n times (n-fold composition of the single step)", 4, func(c *Ctx) {
+		w := c.W
+		f := c.fn("types", "ValidatorSet.IncrementProposerPriority")
+		if f == nil {
+			return
+		}
+		fk := funcKey(f)
+		times := paramName(f, 1)
+		// the rotation step is recognised by its selection of the validator with the most priority (in the step
+		// helper, or in the loop when the helper was inlined)
+		var steps []ssa.CallInstruction
+		for _, dc := range w.deepCallsTo(f, 1, "types#ValidatorSet.getValWithMostPriority") {
+			steps = append(steps, dc.site)
+		}
+		if !c.Check(len(steps) == 1, fk+" :: one rotation step site", w.pos(f.Pos()), "1", fmt.Sprintf("%d", len(steps))) {
+			return
+		}
+		step := steps[0]
+		trips, ok := unitLoopTrips(w, step)
+		c.Check(ok && trips == times, fk+" :: the rotation step runs `times` times", w.ipos(step), times+" iterations", "the step runs "+trips+" times")
+		h := loopOf(step)
+		for _, spec := range []string{"types#ValidatorSet.RescalePriorities", "types#ValidatorSet.shiftByAvgProposerPriority"} {
+			name := spec[strings.LastIndex(spec, ".")+1:]
+			calls := w.callsTo(f, spec)
+			inLoop := len(calls) == 1 && h != nil && loopBlocks(h)[calls[0].Block()]
+			c.Check(inLoop, fk+" :: "+name+" is part of every step", w.pos(f.Pos()), "inside the loop over `times`", name+" runs once per call, not once per step: advancing by a+b differs from advancing by a and then by b, so a node that skips rounds and a node that walks them disagree on the proposer")
+			if inLoop {
+				// it precedes the rotation within an iteration: from the loop's first body block the step is not
+				// reachable without passing it
+				okp := calls[0].Block().Dominates(step.Block()) && (calls[0].Block() != step.Block() || instrIndex(calls[0]) < instrIndex(step))
+				c.Check(okp, fk+" :: "+name+" precedes the rotation in a step", w.ipos(calls[0]), "before incrementProposerPriority", "after the rotation")
+			}
+		}
+	})
+	alias("C03", "R10", "C08", "R10", "correct nodes must agree on the proposer of a round however they reached it, or proposals of a correct proposer are rejected")
+}
